@@ -97,7 +97,7 @@ def doStreamSync (s : St) (e : Ev) : St :=
   else if e.lsfUpd < 0 then { s with msc := 0, ssi := e.lsfIdx, swt := 1, st := 5, eot := false }
   else if s.sc > MAXS then
     let s' :=
-      if s.cost < SCOST then { s with msc := if s.msc = 0 then 1 else s.msc, swt := 1, st := 6 }
+      if s.cost < SCOST ∧ s.msc < MAXMISS then { s with msc := s.msc + 1, swt := 1, st := 6 }
       else if s.eot then { s with st := 0 }
       else if s.msc < MAXMISS then { s with msc := s.msc + 1, swt := 1, st := 6 }
       else { s with st := 0 }
